@@ -96,12 +96,18 @@ func C02(tier string) {
 		}
 		var idx []int
 		var vers []*semver.Version
-		refOnly, libOnly, neither := 0, 0, 0
+		refOnly, libOnly, neither, inexact := 0, 0, 0, 0
 		for i, s := range full {
 			if !inDomain[s] {
 				continue
 			}
 			v, err := sys.Parse(s)
+			if sys == semver.NPM && beyondFloat53(s) {
+				// node-semver compares numeric identifiers as IEEE doubles: above 2^53-1 its own order is inexact
+				// (…806 == …807). Such strings are outside the domain on which the reference is an order to agree with.
+				inexact++
+				continue
+			}
 			switch {
 			case err == nil && t.Rank[i] >= 0:
 				idx = append(idx, i)
@@ -149,7 +155,7 @@ func C02(tier string) {
 			classes[t.Rank[i]] = true
 		}
 		run.Outcome(fmt.Sprintf("%v:%d", sys, len(classes)))
-		per[sys.String()] = map[string]any{"reference": t.Tool, "alt_reference": t.AltTool, "accepted_by_both": n, "library_only": libOnly, "reference_only": refOnly, "neither": neither,
+		per[sys.String()] = map[string]any{"reference": t.Tool, "alt_reference": t.AltTool, "accepted_by_both": n, "library_only": libOnly, "reference_only": refOnly, "neither": neither, "reference_inexact_beyond_2^53": inexact,
 			"pairs": n * n, "reference_classes": len(classes), "undecided_reference_drift_pairs": drift, "disagreeing_pairs": bad, "live_revalidation": live}
 		run.Sample(map[string]any{"system": sys.String(), "a": full[idx[n/3]], "b": full[idx[2*n/3]], "reference_order": core.Sign(t.Rank[idx[n/3]] - t.Rank[idx[2*n/3]])})
 	}
@@ -181,3 +187,23 @@ func c02Replay(w string) (bool, string) {
 }
 
 var _ = strings.Join
+
+// beyondFloat53 reports whether the string contains a digit run denoting a number above 2^53-1.
+func beyondFloat53(s string) bool {
+	run := ""
+	check := func() bool {
+		r := strings.TrimLeft(run, "0")
+		run = ""
+		return len(r) > 16 || (len(r) == 16 && r > "9007199254740991")
+	}
+	for _, c := range s {
+		if c >= '0' && c <= '9' {
+			run += string(c)
+			continue
+		}
+		if check() {
+			return true
+		}
+	}
+	return check()
+}
